@@ -20,6 +20,24 @@ def check_hop_loop(ctx, r, fn, raw):
     """Returns number of facts checked; reports violations on rule r."""
     appends = [s for s in fn.calls("nni_msg_header_append")]
     trims = [s for s in fn.calls("nni_msg_trim") if len(s.node["args"]) > 1 and const_of(fn.expand(s.node["args"][1])) == 4]
+    # the same move written with the fixed-width helpers: the trim is equivalent, but nni_msg_header_append_u32 has no
+    # failure return -- it panics when the header is full, and how full it gets here is decided by the peer
+    trims += [s for s in fn.calls("nni_msg_trim_u32")]
+    hard = [s for s in fn.calls("nni_msg_header_append_u32")]
+    # ... which matters only for words that come off the wire (the trim result), not for the pipe id the function adds itself
+    wire = []
+    for s in hard:
+        a = fn.expand(s.node["args"][1]) if len(s.node["args"]) > 1 else None
+        v = G.resolve(fn, a, (s.b, s.i)) if a is not None else None
+        if v is not None and v.get("k") == "call" and v.get("fn") in ("nni_msg_trim_u32", "nni_msg_header_trim_u32"):
+            wire.append(s)
+    for s in wire:
+        ctx.fail(r, fn, "backtrace word appended with the panicking helper", s.line,
+                 "nni_msg_header_append_u32 at line %s moves a word the peer supplied: with NNG_OPT_MAXTTL at its maximum the "
+                 "header can become exactly full and the helper calls nni_panic -- a remote peer aborts the process; the "
+                 "sibling loops use nni_msg_header_append and drop the message when it does not fit" % s.line)
+    if wire and not appends:
+        return
     if not appends or not trims:
         raise AnalysisBroken("%s: hop loop anchors (nni_msg_header_append / nni_msg_trim(msg, 4)) vanished" % fn.name)
     # edges
